@@ -396,6 +396,22 @@ func GenCoarseSchedule(rng *Rng, nTasks, estSteps int) []int {
 	return sched
 }
 
+// coarseRace wraps a generator for a race-detector profile: same worlds, but a
+// coarse schedule (every task switch costs two collections there, and the
+// detector does not need fine interleaving, see Sched.Run).
+func coarseRace(gen func(*Rng, *Scenario)) func(*Rng, *Scenario) {
+	return func(rng *Rng, sc *Scenario) {
+		gen(rng, sc)
+		if n := len(sc.Clients); n > 1 {
+			est := len(sc.Schedule)
+			if est < 40 {
+				est = 40
+			}
+			sc.Schedule = GenCoarseSchedule(NewRng(sc.Seed, uint64(sc.Run), 0xc0a25e), n, est)
+		}
+	}
+}
+
 // GenSites draws the subset of yield sites enabled for a run (swarm testing).
 func GenSites(rng *Rng) []string {
 	var out []string
